@@ -22,6 +22,7 @@ def run(m: Model, r: Report, tier: str) -> None:
     r.rule("R5", "overrides of _request keep the locked path (delegate to super()._request or lock themselves)", floor=1)
     r.rule("R6", "lock order client mutex -> transport mutex -> connection mutex is acyclic", floor=1)
     r.rule("R7", "the cyclic tester-present worker goes through the public, locked request path", floor=1)
+    r.rule("R10", "a reply is matched against the re-parsed request (a raw request of a known service is not satisfied by another request's reply)", floor=2)
     r.rule("R9", "the transport mutex spans both halves of reconnect (close and connect) and the write+read pair of request", floor=2)
     r.rule("R8", "work that uses the transport under the client mutex is awaited by the lock holder itself: never handed to a task "
                  "that outlives the critical section (asyncio.shield / create_task / ensure_future)", floor=1)
@@ -122,6 +123,8 @@ def run(m: Model, r: Report, tier: str) -> None:
     if n_locked_fn < 2:
         raise AnalysisError("functions running under the client mutex not found")
 
+    from sa.uds_rules import parse_pdu_request_consistency
+    parse_pdu_request_consistency(m, r, "R10")
     # ---------------------------------------------------------------- R9
     tbase = m.require_class("gallia.transports.base.BaseTransport")
     tmx = lm.key_for(tbase, "mutex", lm.locks)
